@@ -35,7 +35,8 @@ structure Cell where
   sp : Bool
   /-- `uniseg.HasTrailingLineBreakInString(Grapheme)` -/
   term : Bool
-  /-- `Grapheme == "\n"` (HardwrapScanner) -/
+  /-- the cell test of HardwrapScanner: `uniseg.HasTrailingLineBreakInString(Grapheme)` since the F516
+      fix (`Grapheme == "\n"` before); kept as a flag of its own -/
   nl : Bool
   deriving DecidableEq, Repr, Inhabited
 
